@@ -201,7 +201,22 @@ class TextGen:
 
     def piece(self, depth=2):
         r = self.r
-        k = r.randrange(19)
+        k = r.randrange(21)
+        if k >= 19:
+            # a block whose body uses the block-level special names super / self (directly, in a nested macro, in a loop)
+            bn = "b" + str(r.randint(0, 10 ** 6))
+            uses = r.sample(["{{ super() }}", "{{ self." + bn + "() }}", "{{ self.other() }}", "{{ super.super() }}", "{{ self }}"], r.randint(1, 4))
+            body = "".join(uses)
+            w = r.random()
+            if w < 0.25:
+                body = "{% macro q" + bn + "() %}" + body + "{% endmacro %}{{ q" + bn + "() }}"
+            elif w < 0.5:
+                body = "{% for i in " + r.choice(IDS) + " %}" + body + "{% endfor %}"
+            inner = self.piece(depth - 1) if depth > 0 and r.random() < 0.4 and "{% block" not in "" else ""
+            if "{% block" in inner:
+                inner = ""
+            pre = '{% extends "base" %}' if r.random() < 0.3 else ""
+            return pre + "{% block " + bn + (" scoped" if r.random() < 0.3 else "") + " %}" + body + inner + "{% endblock %}"
         if k >= 17:
             f = r.choice(sorted(C_FILTER_ARGS))
             arg = r.choice(C_FILTER_ARGS[f])
